@@ -38,6 +38,9 @@ func restoreGlobals() {
 
 func isSyncType(t reflect.Type) bool {
 	pp := t.PkgPath()
+	if strings.HasSuffix(pp, "zzverif/vsync") && t.Name() == "Once" {
+		return false // a Once's "done" flag is data: it must be restored together with what it guards
+	}
 	return pp == "sync" || pp == "sync/atomic" || strings.HasSuffix(pp, "zzverif/vsync") || strings.HasSuffix(pp, "zzverif/vatomic")
 }
 
